@@ -65,6 +65,35 @@ class LayerError(Exception):
     pass
 
 
+class UnhashableError(Exception):
+    """an exception class that defines __eq__ without __hash__ (as dataclasses do)"""
+    def __eq__(self, other):
+        return self is other
+    __hash__ = None
+
+
+def raise_styled(style, cls, msg):
+    """raise `cls(msg)` plain, chained (`from`), inside an except block (context), or as an unhashable class"""
+    if style == "cause":
+        try:
+            raise KeyError("inner of " + msg)
+        except KeyError as e:
+            raise cls(msg) from e
+    if style == "context":
+        try:
+            raise KeyError("inner of " + msg)
+        except KeyError:
+            raise cls(msg)
+    if style == "unhashable":
+        raise UnhashableError(msg)
+    if style == "unhashable-cause":
+        try:
+            raise UnhashableError("inner of " + msg)
+        except UnhashableError as e:
+            raise cls(msg) from e
+    raise cls(msg)
+
+
 def _attempt(kind, idx):
     k = _attempts.get((kind, idx), 0)
     _attempts[(kind, idx)] = k + 1
@@ -83,7 +112,7 @@ def make_hooks(idx, spec):
                 sys.stdout.flush()
                 os._exit(0 if spec["dieInSetUp"] == "exit0" else 3)
             if raises:
-                raise LayerError("setUp of layer %d fails (attempt %d)" % (idx, k))
+                raise_styled(spec.get("excStyle"), LayerError, "setUp of layer %d fails (attempt %d)" % (idx, k))
         hooks["setUp"] = setUp
     if spec["tearDown"]:
         def tearDown(*a):
@@ -99,7 +128,7 @@ def make_hooks(idx, spec):
                 sys.stdout.flush()
                 os._exit(0 if spec["dieInTearDown"] == "exit0" else 3)
             if code == 1:
-                raise LayerError("tearDown of layer %d fails" % idx)
+                raise_styled(spec.get("excStyle"), LayerError, "tearDown of layer %d fails" % idx)
             if code == 2:
                 raise NotImplementedError
         hooks["tearDown"] = tearDown
@@ -149,7 +178,16 @@ def do_part(test, ph, part):
     for to_err, tok in part["writes"]:
         stream = sys.stderr if to_err else sys.stdout
         mode = tok % 3
-        if mode == 0:
+        if part.get("rawbytes"):
+            # undecodable bytes around the token, through the binary layer
+            buf = getattr(stream, "buffer", None)
+            if buf is not None:
+                stream.flush()
+                buf.write(b"\xff\xfeTOK%dK\x80\n" % tok)
+                buf.flush()
+            else:
+                stream.write("TOK%dK\n" % tok)
+        elif mode == 0:
             stream.write("TOK%dK\n" % tok)
         elif mode == 1:
             stream.write("TOK%dK" % tok)        # no trailing newline
@@ -176,7 +214,7 @@ def do_part(test, ph, part):
     if exc == "fail":
         raise AssertionError("failure in %s of t%d" % (ph, test.spec["id"]))
     if exc == "error":
-        raise ValueError("error in %s of t%d" % (ph, test.spec["id"]))
+        raise_styled(part.get("excStyle"), ValueError, "error in %s of t%d" % (ph, test.spec["id"]))
     if exc == "skip":
         raise unittest.SkipTest("skip in %s" % (ph,))
     if exc == "interrupt":
